@@ -222,7 +222,7 @@ def supported(sfs):
     return len(ids) == len(set(ids))
 
 
-def collect_instances(run, rng, nblocks, nhand, lmax, skmax):
+def collect_instances(run, rng, nblocks, nhand, lmax, skmax, front_opts=((), ("-size",))):
     inst, seen = [], set()
     stats = collections.Counter()
 
@@ -248,15 +248,29 @@ def collect_instances(run, rng, nblocks, nhand, lmax, skmax):
         if b not in bs:
             bs.add(b)
             blocks.append(b)
-    for fopts in ((), ("-size",)):
-        rs = gasol.pmap(_front, blocks, init=_init_front, initargs=(fopts,), timeout=10)
+    for fopts in front_opts:
+        rs = gasol.pmap(_front, blocks, init=_init_front, initargs=(fopts,), timeout=10, procs=min(common.NCPU, 8))
         for b, (status, val) in zip(blocks, rs):
             stats["frontend_" + status] += 1
             if status == "ok":
                 for name, s in val:
                     add("frontend" + ("" if not fopts else ":" + fopts[0]), b, s)
-    for _ in range(nhand):
-        add("hand", None, gen_small_spec(rng))
+    from harness import c16
+    tries = 0
+    while stats["hand_kept"] < nhand and tries < 40 * nhand:
+        tries += 1
+        s = gen_small_spec(rng)
+        # shortest realizing sequence by the Python mirror (generation only; Coq decides later)
+        w, complete = c16.search_witness(s, lmax, s["max_sk_sz"], 20000)
+        if w is None:
+            stats["hand_infeasible_or_unknown"] += 1
+            if rng.random() < 0.9:
+                continue
+        else:
+            s["init_progr_len"] = s["max_progr_len"] = min(lmax, max(1, len(w)) + rng.choice([0, 0, 0, 1, 1, 2]))
+        n0 = len(inst)
+        add("hand", None, s)
+        stats["hand_kept"] += len(inst) - n0
     return inst, dict(stats)
 
 
@@ -310,27 +324,54 @@ def _init_z3():
     return {"params": {}}
 
 
+def _params(st, opts, tout):
+    key = (tuple(opts), tout)
+    if key not in st["params"]:
+        st["params"][key] = gasol.make_params(["-solver", "z3", "-tout", str(tout), "-direct-tout"] + list(opts))
+    return st["params"][key]
+
+
+def _smt2_body(path):
+    with open(path) as fh:
+        text = fh.read()
+    os.remove(path)
+    lines = text.splitlines()
+    return lines, "\n".join(ln for ln in lines if not ln.startswith("(set-option :timeout"))
+
+
+def bounds_objects(fe):
+    """The dependency graph the bounds are computed from and the observed iteration order of the one
+    order-exposed set (number_instr_needed: set(dependent_instr_ids).difference(analyzed_instr_ids)),
+    rebuilt with the same operations in the same process."""
+    from smt_encoding.instructions.instruction_dependencies import generate_dependency_graph_minimum
+    instrs = fe._uninterpreted_instructions
+    s2id = {i.output_stack: i.id for i in instrs if i.output_stack is not None}
+    dg = generate_dependency_graph_minimum(instrs, fe.mem_order, s2id)
+    mo = {}
+    for i in instrs:
+        analyzed = set()
+        for e in i.input_stack:
+            if e in s2id:
+                analyzed.add(s2id[e])
+        mo[i.id] = list(set(dg[i.id]).difference(analyzed))
+    return {"dep_graph": {k: list(v) for k, v in dg.items()}, "mem_only_order": mo}
+
+
 def _z3_job(st, job):
-    """job = (sfs, opts, want_detail).  Runs the real encoder and z3."""
+    """job = (sfs, opts, tout, variants).  Runs the real encoder and z3 under `opts`; for every option
+    set in `variants` (same flags plus switches the encoder does not read) only the .smt2 is
+    generated and compared with the one solved."""
     from smt_encoding.block_optimizer import BlockOptimizer
     from smt_encoding.instructions.instruction_bounds_with_dependencies import InstructionBoundsWithDependencies
-    import global_params.paths as paths
-    sfs, opts, tout = job
-    opts = tuple(opts)
-    if opts not in st["params"]:
-        st["params"][opts] = gasol.make_params(["-solver", "z3", "-tout", str(tout), "-direct-tout"] + list(opts))
-    p = st["params"][opts]
+    sfs, opts, tout, variants = job
+    p = _params(st, opts, tout)
     name = "b" + uuid.uuid4().hex[:10]
     bo = BlockOptimizer(name, copy.deepcopy(sfs), p, tout)
     t0 = time.time()
     outcome, _, ids = bo.optimize_block()
     wall = time.time() - t0
-    with open(bo._encoding_file) as fh:
-        text = fh.read()
-    os.remove(bo._encoding_file)
-    lines = text.splitlines()
+    lines, body = _smt2_body(bo._encoding_file)
     soft_lines = [ln for ln in lines if ln.startswith("(assert-soft")]
-    body = "\n".join(ln for ln in lines if not ln.startswith("(set-option :timeout"))
     fe = bo._full_encoding
     th = {t: i.id for t, i in fe.theta_to_instr.items()}
     bnds = {}
@@ -338,12 +379,19 @@ def _z3_job(st, job):
         bnds[i.id] = [fe._bounds.lower_bound_theta_value(t), fe._bounds.upper_bound_theta_value(t)]
     model = bo._solver.get_model() or ""
     mo = re.search(r"\(objectives\s*\(\s*(\w+)\s+(-?\d+)\s*\)", model)
+    sha = hashlib.sha1(body.encode()).hexdigest()
     res = {"outcome": outcome.name, "ids": ids, "wall": round(wall, 3), "theta": th, "bounds": bnds,
            "soft": parse_soft(soft_lines), "n_hard": sum(1 for ln in lines if ln.startswith("(assert ")),
-           "smt2_sha": hashlib.sha1(body.encode()).hexdigest(), "objective": int(mo.group(2)) if mo else None,
-           "bounds_class": type(fe._bounds).__name__}
+           "smt2_sha": sha, "objective": int(mo.group(2)) if mo else None,
+           "bounds_class": type(fe._bounds).__name__, "variants": {}}
     if isinstance(fe._bounds, InstructionBoundsWithDependencies):
-        res["dep_graph"] = {k: list(v) for k, v in fe._dependency_graph.items()}
+        res.update(bounds_objects(fe))
+    for v in variants:
+        pv = _params(st, v, tout)
+        b2 = BlockOptimizer("v" + uuid.uuid4().hex[:10], copy.deepcopy(sfs), pv, tout)
+        b2.generate_intermediate_files()
+        _, body2 = _smt2_body(b2._encoding_file)
+        res["variants"][" ".join(v)] = hashlib.sha1(body2.encode()).hexdigest() == sha
     return res
 
 
@@ -355,7 +403,7 @@ def z3_replay_text(sfs, opts):
 # ---------------------------------------------------------------------------------------------
 # Coq side
 
-HEADER = sfs2coq.HEADER + "From GV Require Import Model.Soft.\n"
+HEADER = sfs2coq.HEADER + "From GV Require Import Model.Soft Model.Bounds.\n"
 
 
 def coq_z(n):
@@ -398,3 +446,743 @@ def bounds_table(sfs, bnds, t):
         lb, ub = bnds[u["id"]]
         ent.append("(%d, (%d, %d))" % (t.ins[u["id"]], max(0, lb), max(0, ub + 1)))
     return "[" + "; ".join(ent) + "]"
+
+
+CASES_ROOT = "CasesC07"     # private: other checks wipe coq/Cases while they run
+
+
+def run_case_files(named_bodies, timeout=900):
+    """Compile cases files in a private directory under coq/ (removed afterwards)."""
+    import concurrent.futures as cf
+    sub = os.path.join(CASES_ROOT, "r" + uuid.uuid4().hex[:8])
+    d = os.path.join(common.COQ, sub)
+    os.makedirs(d, exist_ok=True)
+    for n, b in named_bodies:
+        with open(os.path.join(d, n + ".v"), "w") as fh:
+            fh.write(b)
+
+    def one(n):
+        rc, out = common.sh("ulimit -s unlimited 2>/dev/null; timeout %d coqc -Q . GV %s/%s.v" % (timeout, sub, n),
+                            cwd=common.COQ, timeout=timeout + 30)
+        return n, (rc == 0, out)
+    res = {}
+    try:
+        with cf.ThreadPoolExecutor(max_workers=common.NCPU) as ex:
+            for n, r in ex.map(one, [n for n, _ in named_bodies]):
+                res[n] = r
+    finally:
+        shutil.rmtree(d, ignore_errors=True)
+        try:
+            os.rmdir(os.path.join(common.COQ, CASES_ROOT))
+        except OSError:
+            pass
+    return res
+
+
+def coq_eval(prefix, items, header=HEADER, per=8, timeout=900):
+    """items: list of (spec_text, [(label, coq_expr_using_S)]) -- every expression may mention `S`.
+    Returns (list of {label: printed value}, broken files)."""
+    files = []
+    for f0 in range(0, len(items), per):
+        body = [header]
+        for k in range(f0, min(f0 + per, len(items))):
+            st, exprs = items[k]
+            body.append("Module I%d.\nDefinition S : spec := %s." % (k, st))
+            for lab, e in exprs:
+                body.append('Eval vm_compute in (%d%%nat, "%s", (%s)).' % (k, lab, e))
+            body.append("End I%d." % k)
+        files.append(("%s_%d" % (prefix, f0 // per), "\n".join(body) + "\n"))
+    out = run_case_files(files, timeout=timeout) if files else {}
+    res = [dict() for _ in items]
+    broken = []
+    for name, (ok, txt) in sorted(out.items()):
+        if not ok:
+            broken.append((name, txt[-1500:]))
+            continue
+        for val in c04.parse_evals(txt):
+            m = re.match(r'\((\d+), "([^"]+)", (.*)\)$', val, re.S)
+            if m:
+                res[int(m.group(1))][m.group(2)] = m.group(3).strip()
+    return res, broken
+
+
+# ---------------------------------------------------------------------------------------------
+# per-instance optimum preservation + correspondences
+
+def explain_exclusion(sfs, q, bnds):
+    """Which always-on pruning constraints / windows a sequence (padded with NOPs) violates."""
+    why = []
+    ids = [u["id"] for u in sfs["user_instrs"]]
+    stores = set(u["id"] for u in sfs["user_instrs"] if u.get("storage"))
+    missing = [i for i in ids if i not in q]
+    if missing:
+        why.append("at-least-once:" + ",".join(missing))
+    for j in range(len(q) - 1):
+        if q[j + 1] == "POP" and not (q[j] == "POP" or q[j].startswith("SWAP") or q[j] in stores):
+            why.append("no-output-before-pop@%d" % (j + 1))
+    if bnds:
+        for j, i in enumerate(q):
+            if i in bnds and not (bnds[i][0] <= j <= bnds[i][1]):
+                why.append("window:%s@%d not in [%d,%d]" % (i, j, bnds[i][0], bnds[i][1]))
+    return why
+
+
+def compare_bounds(run, it, r, stats, dist, rep, base):
+    """Model/Bounds.v against the Python objects of one instance (order bounds on)."""
+    s, t = it["sfs"], it["t"]
+    ids = [u["id"] for u in s["user_instrs"]]
+    err_runs = [z for (e, c), z in it["runs"].items() if "error" in z and F_BOUNDS not in e]
+    if "bnd" not in r:
+        if err_runs and "bnderr" in r:
+            stats["bounds_compared"] += 1
+            model_none = r["bnderr"].strip().startswith("None") or "AssertionError" in err_runs[0]["error"]
+            if not model_none:
+                rep({"check": "bounds-correspondence", "what": "python-raises"},
+                    "InstructionBoundsWithDependencies raises (%s) where the model computes bounds" % err_runs[0]["error"],
+                    dict(base, error=err_runs[0]["error"], model=r["bnderr"]))
+            else:
+                stats["bounds_agree"] += 1
+        return
+    z = it["bnd"]
+    stats["bounds_compared"] += 1
+    m = re.match(r"\((\[.*\]), (None|Some \[.*\]), (None|Some \[.*\]), (true|false)\)$", r["bnd"], re.S)
+    if not m:
+        raise RuntimeError("unparsed bounds: " + r["bnd"][:300])
+    g_model = {t.ins_rev[a]: [t.ins_rev[x] for x in b] for a, b in to_py(m.group(1))}
+    if g_model != z["dep_graph"]:
+        rep({"check": "bounds-correspondence", "what": "dependency-graph"},
+            "generate_dependency_graph_minimum differs from Model/Bounds.v",
+            dict(base, model=g_model, python=z["dep_graph"]))
+        return
+    py = {i: z["bounds"][i] for i in ids}
+
+    def dict_of(txt):
+        if txt == "None":
+            return None
+        return {t.ins_rev[a]: [lo, hi] for a, (lo, hi) in to_py(txt[5:])}
+    mod, mod_canon = dict_of(m.group(2)), dict_of(m.group(3))
+    if mod != mod_canon:
+        stats["bounds_order_dependent"] += 1
+    if mod != py:
+        rep({"check": "bounds-correspondence", "what": "bounds"},
+            "lower/upper position bounds of InstructionBoundsWithDependencies differ from Model/Bounds.v",
+            dict(base, model=mod, python=py, dep_graph=z["dep_graph"], mem_only_order=z["mem_only_order"]))
+        return
+    stats["bounds_agree"] += 1
+    stats["bounds_entries"] += len(py)
+    if any(len(v) > 1 for v in z["mem_only_order"].values()):
+        stats["bounds_with_several_memory_predecessors"] += 1
+    sh = "tree"
+    uses = collections.Counter(x for v in z["dep_graph"].values() for x in v)
+    if any(c > 1 for c in uses.values()):
+        sh = "shared"
+    dist["dependency_graph_shape"][sh] += 1
+    dist["dependency_graph_edges"][c04.bucket(sum(len(v) for v in z["dep_graph"].values()), (0, 1, 2, 4, 8))] += 1
+
+
+def check_certs(it, r, stats, dist, rep, base):
+    """The per-instance certificates of Props/C07.v (C07_lb_sound_partial, C07_keeps_optimum_partial, side
+    conditions of the pricing theorems) and soft_prices per instance, all evaluated by Coq."""
+    if "certs" not in r:
+        return
+    s = it["sfs"]
+    lbc, keeps, sides, offs = to_py(r["certs"])
+    stats["certificates_evaluated"] += 1
+    names = ("gas", "size", "length")
+    if not lbc:
+        rep({"check": "lower-bounds-exclude-a-realizing-sequence"},
+            "lb_checked is false: some realizing sequence within the bounds places an instruction before its lower bound",
+            dict(base, true_optimum=it.get("opt")))
+    else:
+        stats["lb_certified"] += 1
+    for cname, (kb, kd) in zip(names, keeps):
+        for label, ok in (("order-bounds", kb), ("no-bounds", kd)):
+            stats["keeps_optimum_checked"] += 1
+            if ok:
+                stats["keeps_optimum_certified"] += 1
+            else:
+                rep({"check": "no-optimal-program-inside-windows-and-pruning", "criterion": cname, "windows": label},
+                    "keeps_optimum_checked is false (%s, %s): every optimal program violates a window or a pruning constraint"
+                    % (cname, label), dict(base, criterion=cname, true_optimum=it.get("opt")))
+    for cname, sd in zip(names, sides):
+        stats["pricing_side_conditions"] += 1
+        if not all(sd):
+            rep({"check": "pricing-side-condition", "criterion": cname},
+                "a side condition of C07_soft_prices_* is false for this specification: (direct, grouped+bounds, grouped) = %s" % (sd,),
+                dict(base, criterion=cname))
+        else:
+            stats["pricing_side_conditions_hold"] += 1
+    big = [u["id"] for u in s["user_instrs"] if u["size"] > 5 and not u["storage"]]
+    for cname, of in zip(names, offs):
+        for mode, o in zip(("grouped+bounds", "direct+bounds", "grouped", "direct"), of):
+            stats["price_offsets_checked"] += 1
+            if len(o) > 1:
+                cause = "size-weight-cap" if (cname == "size" and big) else "unknown"
+                dist["price_offsets_not_constant"][cname + ":" + cause] += 1
+                rep({"check": "soft-prices-instance", "criterion": cname, "cause": cause},
+                    "penalty - %s cost is not constant over the realizing programs of this specification (%s): offsets %s; "
+                    "instructions larger than 5 bytes: %s" % (cname, mode, o, big),
+                    dict(base, criterion=cname, mode=mode, offsets=o, big_instructions=big))
+            else:
+                stats["price_offsets_constant"] += 1
+
+
+def run_instances(run, inst, option_sets, tout, stats, dist, max_reports=6):
+    """z3 phase, Coq phase, comparison.  Reports through run.report."""
+    eff_sets = []
+    variants = collections.defaultdict(list)
+    for o in option_sets:
+        e = effective(o)
+        if e not in eff_sets:
+            eff_sets.append(e)
+        if o != e:
+            variants[e].append(o)
+    jobs, jidx = [], []
+    for k, it in enumerate(inst):
+        for e in eff_sets:
+            for cname, cflags, _ in CRITERIA:
+                # the switches the encoder does not read are compared (text of the .smt2) under one criterion
+                jobs.append((it["sfs"], tuple(e) + tuple(cflags), tout,
+                             [tuple(v) + tuple(cflags) for v in variants[e]] if cname == "gas" else []))
+                jidx.append((k, e, cname))
+    t0 = time.time()
+    rs = gasol.pmap(_z3_job, jobs, init=_init_z3, timeout=tout * 3 + 60)
+    run.log("z3 phase: %d runs of BlockOptimizer+z3 on %d instances x %d effective option sets x 3 criteria (%.0fs)"
+            % (len(jobs), len(inst), len(eff_sets), time.time() - t0))
+    # a solver timeout (no model / interval only) is inconclusive: retried with few processes and a
+    # larger timeout; only `unsat` counts as "no model exists"
+    redo = [n for n, (status, val) in enumerate(rs)
+            if status in ("timeout", "crash") or (status == "ok" and val["outcome"] in ("no_model", "non_optimal"))]
+    if redo:
+        rs2 = gasol.pmap(_z3_job, [(jobs[n][0], jobs[n][1], 60, []) for n in redo], init=_init_z3, timeout=240, procs=4)
+        for n, r2 in zip(redo, rs2):
+            stats["z3_retried"] += 1
+            if r2[0] == "ok":
+                if rs[n][0] == "ok":
+                    r2[1]["variants"] = rs[n][1]["variants"]
+                rs[n] = r2
+    for it in inst:
+        it["runs"] = {}
+    for (k, e, cname), (status, val) in zip(jidx, rs):
+        stats["z3_runs"] += 1
+        stats["z3_status_" + status] += 1
+        if status != "ok":
+            inst[k]["runs"][(e, cname)] = {"error": "%s %s" % (status, str(val)[:300])}
+            continue
+        inst[k]["runs"][(e, cname)] = val
+        dist["outcome"][val["outcome"]] += 1
+        for v, same in val["variants"].items():
+            stats["noop_variants_compared"] += 1
+            if not same:
+                run.report({"check": "noop-flag-changes-encoding", "flags": v},
+                           "the emitted .smt2 changes under flags that the encoder is believed not to read: %s" % v,
+                           {"kind": "spec", "sfs": inst[k]["sfs"], "opts": v.split(), "base_opts": list(e)})
+    # ---- Coq
+    items = []
+    for it in inst:
+        s = it["sfs"]
+        stxt, t = sfs2coq.spec_term(s)
+        it["t"] = t
+        L, sk = s["init_progr_len"], s["max_sk_sz"]
+        exprs = [("opt", "opt3 S %d %d" % (L, sk)), ("wf", "wf_spec S")]
+        it["qs"], it["softs"] = {}, {}
+        for (e, cname), r in it["runs"].items():
+            if "error" in r:
+                continue
+            ccoq = [c[2] for c in CRITERIA if c[0] == cname][0]
+            direct = "true" if F_DIRECT in e else "false"
+            tbl = bounds_table(s, r["bounds"], t)
+            sk_key = (ccoq, direct, tbl)
+            if sk_key not in it["softs"]:
+                it["softs"][sk_key] = "soft%d" % len(it["softs"])
+                exprs.append((it["softs"][sk_key], "soft_out S (soft %s %s S (table_bounds S %s))" % sk_key))
+            r["soft_label"] = it["softs"][sk_key]
+            if "dep_graph" in r and "bnd" not in it:
+                mo = "[" + "; ".join("(%d, [%s])" % (t.ins[k], "; ".join(str(t.ins[x]) for x in v))
+                                     for k, v in r["mem_only_order"].items()) + "]"
+                it["bnd"] = r
+                exprs.append(("bnd", "(dep_graph S, bounds_dict S %s, bounds_dict S [], no_const_inputs S)" % mo))
+                exprs.append(("certs", "instance_certs S %s %d %d" % (mo, L, sk)))
+            if r["ids"]:
+                qk = tuple(r["ids"])
+                if qk not in it["qs"]:
+                    it["qs"][qk] = "q%d" % len(it["qs"])
+                    exprs.append((it["qs"][qk], "(check_bounded S %s %d %d, cost3 S %s)" %
+                                  (sfs2coq.ids_term(r["ids"], t), L, sk, sfs2coq.ids_term(r["ids"], t))))
+                r["q_label"] = it["qs"][qk]
+                r["pen_label"] = "pen_%s_%s" % (r["soft_label"], r["q_label"])
+                if r["pen_label"] not in [x[0] for x in exprs]:
+                    exprs.append((r["pen_label"], "penalty (soft %s %s S (table_bounds S %s)) %s" %
+                                  (sk_key + (sfs2coq.ids_term(r["ids"], t),))))
+        if "bnd" not in it and any("error" in z for z in it["runs"].values()):
+            exprs.append(("bnderr", "bounds_dict S []"))
+        items.append((stxt, exprs))
+    t0 = time.time()
+    res, broken = coq_eval("c07i", items, per=max(1, min(8, len(items) // common.NCPU + 1)))
+    run.log("Coq phase: %d instances, %d expressions (%.0fs)" % (len(items), sum(len(x[1]) for x in items), time.time() - t0))
+    for name, txt in broken:
+        run.report({"check": "cases-broken", "file": name}, "cases file %s did not evaluate: %s" % (name, txt[-300:]),
+                   {"file": name, "output": txt}, found_input=False)
+    reported = collections.Counter()
+
+    def rep(key, what, replay):
+        cls = json.dumps(key, sort_keys=True)
+        reported[cls] += 1
+        if reported[cls] <= max_reports:
+            run.report(key, what, replay)
+    # ---- compare
+    for it, r in zip(inst, res):
+        s, t = it["sfs"], it["t"]
+        if "opt" not in r:
+            stats["instances_not_evaluated"] += 1
+            continue
+        stats["instances"] += 1
+        L, sk = s["init_progr_len"], s["max_sk_sz"]
+        m = re.match(r"\((.*), (\d+)\)$", r["opt"], re.S)
+        nreal = int(m.group(2))
+        opts3 = []
+        for mm in re.finditer(r"None|Some \(\(?(-?\d+)\)?%Z, (\[[^\]]*\])\)", m.group(1)):
+            if mm.group(0) == "None":
+                opts3.append(None)
+            else:
+                opts3.append((int(mm.group(1)), steps_to_ids(mm.group(2), t)))
+        if len(opts3) != 3:
+            raise RuntimeError("unparsed opt3: " + r["opt"][:300])
+        it["opt"] = dict(zip(("gas", "size", "length"), opts3))
+        it["n_realizing"] = nreal
+        dist["init_progr_len"][L] += 1
+        dist["max_sk_sz"][sk] += 1
+        dist["n_user_instrs"][len(s["user_instrs"])] += 1
+        dist["realizable"][str(nreal > 0)] += 1
+        dist["n_realizing_sequences"][c04.bucket(nreal, (0, 1, 2, 5, 20, 100))] += 1
+        dist["origin"][it["origin"].split(":")[0]] += 1
+        base = {"kind": "spec", "sfs": s, "block": it.get("block"), "origin": it["origin"],
+                "cmd": "cd /verif && ./check C07 --replay <this file>"}
+        costs_by_set = collections.defaultdict(dict)
+        compare_bounds(run, it, r, stats, dist, rep, base)
+        check_certs(it, r, stats, dist, rep, base)
+        for (e, cname), z in it["runs"].items():
+            if "error" in z:
+                stats["encoder_errors"] += 1
+                dist["encoder_error"][z["error"].split(":")[0][:40] + (" (not realizable)" if it["opt"][cname] is None else " (realizable)")] += 1
+                if it["opt"][cname] is not None:
+                    rep({"check": "encoder-or-solver-error", "error": z["error"].split(":")[0][:60],
+                         "order_bounds": F_BOUNDS not in e},
+                        "BlockOptimizer/z3 fails (%s) although %s realizes the specification within the bounds"
+                        % (z["error"], it["opt"][cname][1]),
+                        dict(base, opts=list(e), criterion=cname, error=z["error"], realizing_sequence=it["opt"][cname][1]))
+                continue
+            stats["runs_compared"] += 1
+            cidx = ("gas", "size", "length").index(cname)
+            o = it["opt"][cname]
+            rp = dict(base, opts=list(e), criterion=cname, z3_outcome=z["outcome"], z3_ids=z["ids"],
+                      z3_objective=z["objective"], bounds=z["bounds"], true_optimum=o, n_realizing=nreal)
+            flags = {"order_bounds": F_BOUNDS not in e, "order_conflicts": F_CONFL not in e,
+                     "direct_soft": F_DIRECT in e}
+            # soft-constraint correspondence
+            if z.get("soft_label") and z["soft_label"] in r:
+                stats["soft_compared"] += 1
+                model_soft = [(a, b, c, list(d)) for a, b, c, d in to_py(r[z["soft_label"]])]
+                py_soft = [(a, b, c, list(d)) for a, b, c, d in z["soft"]]
+                if model_soft != py_soft:
+                    rep({"check": "soft-correspondence", "criterion": cname, "direct_soft": flags["direct_soft"]},
+                        "the assert-soft lines of the emitted .smt2 differ from Model/Soft.v", 
+                        dict(rp, model_soft=model_soft, python_soft=py_soft))
+                else:
+                    stats["soft_agree"] += 1
+                    stats["soft_constraints_total"] += len(py_soft)
+            if z["outcome"] == "no_model" or (z["outcome"] == "non_optimal" and not z["ids"]):
+                stats["z3_inconclusive_timeout"] += 1
+                continue
+            if z["outcome"] == "unsat":
+                dist["sat"]["unsat"] += 1
+                if o is not None:
+                    q = o[1] + ["NOP"] * (L - len(o[1]))
+                    why = explain_exclusion(s, q, z["bounds"] if flags["order_bounds"] else None)
+                    rep(dict({"check": "unsat-but-realizable"}, **flags, excluded_by=sorted(set(w.split(":")[0].split("@")[0] for w in why))),
+                        "z3 reports %s but the sequence %s realizes the specification within init_progr_len=%d, "
+                        "max_sk_sz=%d (constraints it violates: %s)" % (z["outcome"], o[1], L, sk, why),
+                        dict(rp, realizing_sequence=o[1], violates=why))
+                continue
+            dist["sat"]["sat"] += 1
+            q = r.get(z.get("q_label"))
+            if q is None:
+                continue
+            mq = re.match(r"\((None|Some \(\d+, E\w+(?: \d+)*\)), (\(.*\))\)$", q, re.S)
+            if not mq:
+                raise RuntimeError("unparsed verdict: " + q[:300])
+            costs3 = to_py(mq.group(2))
+            verdict = sfs2coq.parse_verdict(mq.group(1))
+            cost = int(costs3[cidx])
+            if verdict is not None:
+                rep({"check": "decoded-not-realizing", "error": verdict[1]},
+                    "the program decoded from z3's model does not realize the specification within the bounds: %s"
+                    % sfs2coq.explain(verdict, z["ids"], t), dict(rp, verdict=list(verdict)))
+                continue
+            stats["decoded_realizing"] += 1
+            costs_by_set[cname][e] = cost
+            # objective = penalty of the decoded program under the model
+            if z.get("pen_label") in r and z["objective"] is not None:
+                stats["objective_compared"] += 1
+                pen = int(re.sub(r"[()%Z]", "", r[z["pen_label"]]))
+                if pen != z["objective"]:
+                    rep({"check": "objective-vs-penalty", "criterion": cname, "direct_soft": flags["direct_soft"]},
+                        "z3's objective %d differs from the model's penalty %d of the decoded program" % (z["objective"], pen),
+                        dict(rp, model_penalty=pen))
+                else:
+                    stats["objective_agree"] += 1
+            if z["outcome"] == "optimal":
+                stats["optimal_compared"] += 1
+                if o is None or cost != o[0]:
+                    better = o[1] if o else None
+                    qq = (better or []) + ["NOP"] * (L - len(better or []))
+                    why = explain_exclusion(s, qq, z["bounds"] if flags["order_bounds"] else None)
+                    rep(dict({"check": "optimum-differs", "criterion": cname}, **flags,
+                             excluded_by=sorted(set(w.split(":")[0].split("@")[0] for w in why))),
+                        "criterion %s: z3 reports optimal with %s of cost %d, but %s of cost %s realizes the specification "
+                        "within the bounds (constraints it violates: %s)" % (cname, z["ids"], cost, better, o[0] if o else None, why),
+                        dict(rp, decoded_cost=cost, better_sequence=better, violates=why))
+                else:
+                    stats["optimal_agree"] += 1
+            else:
+                stats["non_optimal_outcomes"] += 1
+        for cname, d in costs_by_set.items():
+            if len(set(d.values())) > 1:
+                stats["optimum_differs_between_option_sets"] += 1
+    return reported
+
+
+# ---------------------------------------------------------------------------------------------
+# larger specifications: encoder objects only (soft constraints, bounds) + feasibility with a
+# known witness
+
+def _enc_job(st, job):
+    """job = (sfs, opts).  Builds the real encoding (no solver run) and returns the parsed soft
+    constraints, the bounds and the dependency graph."""
+    from smt_encoding.block_optimizer import BlockOptimizer
+    from smt_encoding.instructions.instruction_bounds_with_dependencies import InstructionBoundsWithDependencies
+    sfs, opts = job
+    p = _params(st, tuple(opts), 10)
+    bo = BlockOptimizer("e" + uuid.uuid4().hex[:10], copy.deepcopy(sfs), p, 10)
+    bo.generate_intermediate_files()
+    lines, _ = _smt2_body(bo._encoding_file)
+    fe = bo._full_encoding
+    bnds = {i.id: [fe._bounds.lower_bound_theta_value(t), fe._bounds.upper_bound_theta_value(t)]
+            for t, i in fe.theta_to_instr.items()}
+    res = {"soft": parse_soft([ln for ln in lines if ln.startswith("(assert-soft")]), "bounds": bnds}
+    if isinstance(fe._bounds, InstructionBoundsWithDependencies):
+        res.update(bounds_objects(fe))
+    return res
+
+
+def larger_specs(run, rng, nblocks, nhand, lmin, lmax):
+    """Front-end specifications of generated blocks and hand-built ones (c04's generators) above
+    the exhaustive range."""
+    out, seen = [], set()
+    blocks = []
+    while len(blocks) < nblocks:
+        b = " ".join(c04.gen_block(rng, max_len=25, max_need=8))
+        if b not in blocks:
+            blocks.append(b)
+    rs = gasol.pmap(_front, blocks, init=_init_front, initargs=((),), timeout=10)
+    for b, (status, val) in zip(blocks, rs):
+        if status != "ok":
+            continue
+        for name, s in val:
+            if supported(s) and lmin <= s["init_progr_len"] <= lmax and s["max_sk_sz"] <= 17:
+                k = json.dumps([s["src_ws"], s["tgt_ws"], s["user_instrs"], s["dependencies"]], sort_keys=True)
+                if k not in seen:
+                    seen.add(k)
+                    out.append({"origin": "frontend-large", "block": b, "sfs": s})
+    n = 0
+    while n < nhand:
+        s = c04.gen_spec(rng)
+        if supported(s) and len(s["user_instrs"]) <= 12 and s["init_progr_len"] <= 60:
+            s["max_sk_sz"] = min(s["max_sk_sz"], 17)
+            out.append({"origin": "hand-large", "block": None, "sfs": s})
+            n += 1
+    return out
+
+
+def encoder_correspondence(run, specs, stats, dist):
+    """Soft constraints (3 criteria x grouped/direct, order bounds on) and bounds of the real encoder
+    against the models on larger specifications."""
+    jobs, jidx = [], []
+    for k, it in enumerate(specs):
+        for cname, cflags, ccoq in CRITERIA:
+            for d in ((), (F_DIRECT,)):
+                jobs.append((it["sfs"], tuple(d) + tuple(cflags)))
+                jidx.append((k, cname, ccoq, bool(d)))
+    rs = gasol.pmap(_enc_job, jobs, init=_init_z3, timeout=60)
+    items = []
+    per_spec = collections.defaultdict(list)
+    for (k, cname, ccoq, d), (status, val) in zip(jidx, rs):
+        per_spec[k].append((cname, ccoq, d, status, val))
+    order = []
+    for k, it in enumerate(specs):
+        s = it["sfs"]
+        try:
+            stxt, t = sfs2coq.spec_term(s)
+        except sfs2coq.SfsFormatError:
+            continue
+        it["t"] = t
+        exprs = []
+        first = None
+        for cname, ccoq, d, status, val in per_spec[k]:
+            if status != "ok":
+                stats["large_encoder_" + status] += 1
+                continue
+            if first is None:
+                first = val
+            tbl = bounds_table(s, val["bounds"], t)
+            exprs.append(("soft_%s_%s" % (cname, d), "soft_out S (soft %s %s S (table_bounds S %s))" %
+                          (ccoq, "true" if d else "false", tbl)))
+        if first is None:
+            exprs.append(("bnderr", "bounds_dict S []"))
+        elif "dep_graph" in first:
+            mo = "[" + "; ".join("(%d, [%s])" % (t.ins[a], "; ".join(str(t.ins[x]) for x in v))
+                                 for a, v in first["mem_only_order"].items()) + "]"
+            exprs.append(("bnd", "(dep_graph S, bounds_dict S %s, bounds_dict S [], no_const_inputs S)" % mo))
+            it["bnd"] = first
+        it["runs"] = {}
+        items.append((stxt, exprs))
+        order.append(k)
+    res, broken = coq_eval("c07e", items, per=2)
+    for name, txt in broken:
+        run.report({"check": "cases-broken", "file": name}, "cases file %s did not evaluate: %s" % (name, txt[-300:]),
+                   {"file": name, "output": txt}, found_input=False)
+    reported = collections.Counter()
+
+    def rep(key, what, replay):
+        cls = json.dumps(key, sort_keys=True)
+        reported[cls] += 1
+        if reported[cls] <= 4:
+            run.report(key, what, replay)
+    for k, r in zip(order, res):
+        it = specs[k]
+        s = it["sfs"]
+        base = {"kind": "spec", "sfs": s, "block": it.get("block"), "origin": it["origin"],
+                "cmd": "cd /verif && ./check C07 --replay <this file>"}
+        if not r:
+            continue
+        stats["large_specs"] += 1
+        dist["large_init_progr_len"][c04.bucket(s["init_progr_len"], (5, 10, 20, 40))] += 1
+        dist["large_n_user_instrs"][c04.bucket(len(s["user_instrs"]), (2, 4, 8, 12))] += 1
+        for cname, ccoq, d, status, val in per_spec[k]:
+            lab = "soft_%s_%s" % (cname, d)
+            if status != "ok" or lab not in r:
+                continue
+            stats["soft_compared"] += 1
+            model_soft = [(a, b, c, list(e)) for a, b, c, e in to_py(r[lab])]
+            py_soft = [(a, b, c, list(e)) for a, b, c, e in val["soft"]]
+            if model_soft != py_soft:
+                rep({"check": "soft-correspondence", "criterion": cname, "direct_soft": d},
+                    "the assert-soft lines of the emitted .smt2 differ from Model/Soft.v",
+                    dict(base, criterion=cname, opts=[F_DIRECT] if d else [], model_soft=model_soft[:40], python_soft=py_soft[:40]))
+            else:
+                stats["soft_agree"] += 1
+                stats["soft_constraints_total"] += len(py_soft)
+        if "bnd" in it:
+            compare_bounds(run, it, r, stats, dist, rep, base)
+        elif "bnderr" in r:
+            it["runs"] = {((), "gas"): {"error": str(per_spec[k][0][4])}}
+            compare_bounds(run, it, r, stats, dist, rep, base)
+
+
+def larger_feasibility(run, specs, nmax, stats, dist):
+    """Larger specifications with a known witness (the sub-block's own instructions, confirmed by Coq):
+    the hard constraints must be satisfiable, the decoded program must realize the specification and,
+    when z3 reports optimal, must not cost more than the witness."""
+    from harness import c16
+    cand = []
+    for it in specs:
+        s = it["sfs"]
+        if it["origin"] != "frontend-large" or not (6 <= s["init_progr_len"] <= 12):
+            continue
+        w = c16.orig_to_ids(s)
+        if w is not None and c04.sym_check(s, w, s["init_progr_len"], s["max_sk_sz"]) is None:
+            cand.append((it, w))
+        if len(cand) >= nmax:
+            break
+    jobs = [(it["sfs"], tuple(cf), 10, []) for it, w in cand for _, cf, _ in CRITERIA[:2]]
+    rs = gasol.pmap(_z3_job, jobs, init=_init_z3, timeout=90)
+    items = []
+    for k, (it, w) in enumerate(cand):
+        s = it["sfs"]
+        stxt, t = sfs2coq.spec_term(s)
+        L, sk = s["init_progr_len"], s["max_sk_sz"]
+        exprs = [("w", "(check_bounded S %s %d %d, cost3 S %s)" % (sfs2coq.ids_term(w, t), L, sk, sfs2coq.ids_term(w, t)))]
+        for c in range(2):
+            st, z = rs[2 * k + c]
+            if st == "ok" and z["ids"]:
+                exprs.append(("z%d" % c, "(check_bounded S %s %d %d, cost3 S %s)" %
+                              (sfs2coq.ids_term(z["ids"], t), L, sk, sfs2coq.ids_term(z["ids"], t))))
+        items.append((stxt, exprs))
+    res, broken = coq_eval("c07f", items, per=4)
+    for name, txt in broken:
+        run.report({"check": "cases-broken", "file": name}, "cases file %s did not evaluate: %s" % (name, txt[-300:]),
+                   {"file": name, "output": txt}, found_input=False)
+
+    def parse(v):
+        m = re.match(r"\((None|Some \(\d+, E\w+(?: \d+)*\)), (\(.*\))\)$", v, re.S)
+        return sfs2coq.parse_verdict(m.group(1)), to_py(m.group(2))
+    for k, ((it, w), r) in enumerate(zip(cand, res)):
+        s = it["sfs"]
+        if "w" not in r:
+            continue
+        vw, cw = parse(r["w"])
+        if vw is not None:
+            continue                      # the mirror accepted a witness Coq rejects: not a witness
+        stats["large_with_witness"] += 1
+        dist["large_witness_init_progr_len"][s["init_progr_len"]] += 1
+        for c, (cname, cflags, _) in enumerate(CRITERIA[:2]):
+            st, z = rs[2 * k + c]
+            base = {"kind": "spec", "sfs": s, "block": it.get("block"), "origin": it["origin"], "opts": [], "criterion": cname,
+                    "witness": w, "cmd": "cd /verif && ./check C07 --replay <this file>"}
+            if st != "ok":
+                stats["large_z3_" + st] += 1
+                if st == "exc":
+                    run.report({"check": "encoder-or-solver-error", "error": str(z).split(":")[0][:60], "order_bounds": True},
+                               "BlockOptimizer/z3 fails (%s) although the sub-block's own instructions realize the specification" % str(z)[:200],
+                               dict(base, error=str(z)))
+                continue
+            stats["large_z3_runs"] += 1
+            dist["large_outcome"][z["outcome"]] += 1
+            if z["outcome"] == "unsat" or (z["outcome"] == "no_model" and False):
+                run.report({"check": "unsat-but-realizable", "order_bounds": True, "order_conflicts": True, "direct_soft": False,
+                            "excluded_by": sorted(set(x.split(":")[0].split("@")[0] for x in explain_exclusion(s, w + ["NOP"] * (s["init_progr_len"] - len(w)), z["bounds"])))},
+                           "z3 reports unsat but the sub-block's own instructions %s realize the specification within the bounds" % w,
+                           dict(base, z3_outcome=z["outcome"], bounds=z["bounds"], realizing_sequence=w))
+                continue
+            if "z%d" % c in r:
+                vz, cz = parse(r["z%d" % c])
+                if vz is not None:
+                    run.report({"check": "decoded-not-realizing", "error": vz[1]},
+                               "the program decoded from z3's model does not realize the specification within the bounds",
+                               dict(base, z3_ids=z["ids"], verdict=list(vz)))
+                elif z["outcome"] == "optimal" and cz[c] > cw[c]:
+                    run.report({"check": "optimum-differs", "criterion": cname, "order_bounds": True, "order_conflicts": True,
+                                "direct_soft": False, "excluded_by": ["larger-instance"]},
+                               "z3 reports optimal with cost %d but the witness costs %d" % (cz[c], cw[c]),
+                               dict(base, z3_ids=z["ids"], decoded_cost=cz[c], witness_cost=cw[c]))
+                else:
+                    stats["large_feasible_and_realizing"] += 1
+
+
+# ---------------------------------------------------------------------------------------------
+
+def check(run):
+    rng = random.Random(run.seed + 7)
+    ok = common.proof_stage(run, "Props/C07.v")
+    if not ok:
+        run.report({"kind": "proof-broken", "what": str(run.proof_broken)[:200]},
+                   "the proofs of Props/C07.v no longer check: %s" % (str(run.proof_broken)[:300]),
+                   {"theorem": "Props/C07.v", "detail": str(run.proof_broken)[:2000],
+                    "cmd": "cd /verif/coq && make Props/C07.vo"}, found_input=False)
+    thorough = run.tier == "thorough"
+    lmax = 5 if thorough else 4
+    nblocks, nhand = (200, 120) if thorough else (50, 22)
+    option_sets = all_option_sets() if thorough else QUICK_SETS
+    stats = collections.Counter()
+    dist = collections.defaultdict(collections.Counter)
+    t0 = time.time()
+    if thorough:
+        inst, cst = collect_instances(run, rng, nblocks, nhand, lmax, 7)
+        inst = inst[:260]
+    else:                                 # one front-end pass; a few instances at the thorough bound as well
+        allinst, cst = collect_instances(run, rng, nblocks, nhand, 5, 7, front_opts=((),))
+        small = [i for i in allinst if i["sfs"]["init_progr_len"] <= 4]
+        inst = small[:36] + [i for i in allinst if i["sfs"]["init_progr_len"] == 5][:6]
+    run.log("instances: %d (init_progr_len <= %d, max_sk_sz <= 7) from %s (%.0fs)" % (len(inst), lmax, cst, time.time() - t0))
+    run_instances(run, inst, option_sets, 10, stats, dist)
+    t0 = time.time()
+    specs = larger_specs(run, rng, 120 if thorough else 24, 80 if thorough else 8, 6, 40)
+    encoder_correspondence(run, specs, stats, dist)
+    run.log("larger specifications: %d, encoder objects against the models (%.0fs)" % (len(specs), time.time() - t0))
+    t0 = time.time()
+    larger_feasibility(run, specs, 24 if thorough else 5, stats, dist)
+    run.log("larger specifications with a witness: %d, %d z3 runs (%.0fs)" % (stats["large_with_witness"], stats["large_z3_runs"], time.time() - t0))
+    # ---- evidence
+    nopt = stats["optimal_compared"]
+    run.cov["evaluations"] = stats["runs_compared"] + stats["soft_compared"] + stats["bounds_compared"]
+    run.cov["distinct_nontrivial"] = sum(1 for i in inst if i.get("n_realizing", 0) > 0 and i["sfs"]["init_progr_len"] >= 2)
+    run.cov["rule"] = (
+        "instances: distinct small specifications (front end on generated blocks over a small vocabulary under default "
+        "and -size rules; hand-built well-formed specifications; corpus), init_progr_len <= %d, max_sk_sz <= 7; "
+        "one evaluation = one run of the real BlockOptimizer+z3 on (instance, option set, criterion) compared with the "
+        "Coq-computed optimum, or one soft-constraint list / bounds dictionary compared with the model; non-trivial = "
+        "realizable instance with init_progr_len >= 2 (distinct by canonical JSON)" % max([i["sfs"]["init_progr_len"] for i in inst] or [0]))
+    run.cov["exhaustive"] = {
+        "what": "for every instance Coq enumerates (vm_compute of Model/Soft.v:opt3) EVERY sequence of length <= init_progr_len over "
+                "the alphabet POP, DUP1..DUP(sk-1), SWAP1..SWAP(sk-1), all user-instruction ids (NOP = padding) that runs "
+                "within max_sk_sz and realizes the specification; completeness and minimality are theorems "
+                "(C07_enum_complete, C07_opt_is_minimum)",
+        "instances": stats["instances"],
+        "bound_init_progr_len": max([i["sfs"]["init_progr_len"] for i in inst] or [0]),
+        "instances_per_init_progr_len": {str(k): v for k, v in sorted(dist["init_progr_len"].items())},
+        "bound_max_sk_sz": 7,
+        "enumerations": stats["instances"],
+        "option_sets": len(option_sets), "effective_option_sets": len(set(effective(o) for o in option_sets)),
+        "criteria": 3, "z3_runs": stats["z3_runs"], "noop_flag_variants_with_identical_smt2": stats["noop_variants_compared"],
+        "optimal_outcomes_compared_with_true_optimum": nopt, "agreeing": stats["optimal_agree"]}
+    run.cov["partial"] = {
+        "proved": ["soft_prices (gas, length; size when no instruction is larger than 5 bytes) for both soft-constraint generators and arbitrary windows",
+                   "soft_prices_size refuted (weights min(size,5))",
+                   "enum_complete / opt_is_minimum: the Coq enumerator computes the true optimum of an instance",
+                   "lb_cert_sound: certified lower bounds are respected by every realizing sequence"],
+        "checked_per_instance_only": ["hard constraints satisfiable when realizable", "Max-SMT optimum = true optimum for every option set and criterion",
+                                      "upper bounds / pruning constraints keep an optimal program (ub_keeps_optimum is NOT proved)",
+                                      "lower bounds outside the certified class"],
+        "not_covered": ["-push-basic, -pop-uninterpreted, -memory-encoding l_vars, -term-encoding variants, -empty, REVERT-terminal blocks",
+                        "instances with init_progr_len > %d: only model correspondence" % lmax]}
+    d = {k: {str(a): b for a, b in v.items()} for k, v in dist.items()}
+    d["stats"] = dict(stats)
+    d["collect"] = cst
+    run.cov["distribution"] = d
+    for it in inst[:6]:
+        run.add_sample({"origin": it["origin"], "block": it.get("block"), "src_ws": it["sfs"]["src_ws"], "tgt_ws": it["sfs"]["tgt_ws"],
+                        "ids": [u["id"] for u in it["sfs"]["user_instrs"]], "init_progr_len": it["sfs"]["init_progr_len"],
+                        "max_sk_sz": it["sfs"]["max_sk_sz"], "true_optimum": it.get("opt"),
+                        "z3": {" ".join(e) + "|" + c: [z.get("outcome"), z.get("ids")] for (e, c), z in list(it.get("runs", {}).items())[:3]}})
+    run.log("stats: %s" % dict(stats))
+
+
+def replay(run, path):
+    """Re-runs one replay file: the real encoder + z3 on the stored specification and options, the
+    Coq optimum, and the comparison."""
+    with open(path) as fh:
+        j = json.load(fh)
+    rp = j.get("replay", j)
+    if rp.get("kind") != "spec" or "sfs" not in rp:
+        print("replay names a broken proof obligation:", rp.get("theorem") or rp.get("file"))
+        ok = common.proof_stage(run, "Props/C07.v")
+        return 0 if ok else 1
+
+    class R2:
+        def __init__(self):
+            self.reports = []
+
+        def log(self, *a):
+            print(*a, flush=True)
+
+        def report(self, key, what, replay, found_input=True):
+            self.reports.append((key, what))
+            print("FAILS:", key, "\n   ", what[:700])
+    r2 = R2()
+    s = rp["sfs"]
+    inst = [{"origin": rp.get("origin", "replay"), "block": rp.get("block"), "sfs": s}]
+    opts = tuple(o for o in rp.get("opts", []) if o not in ("-size", "-length"))   # criteria are all run
+    stats, dist = collections.Counter(), collections.defaultdict(collections.Counter)
+    print("specification: src_ws=%s tgt_ws=%s init_progr_len=%s max_sk_sz=%s" % (s["src_ws"], s["tgt_ws"], s["init_progr_len"], s["max_sk_sz"]))
+    for u in s["user_instrs"]:
+        print("   ", u["id"], u["inpt_sk"], "->", u["outpt_sk"], "gas", u["gas"], "size", u["size"], "storage" if u["storage"] else "")
+    print("dependencies:", s.get("storage_dependences"), s.get("memory_dependences"))
+    if s["init_progr_len"] <= 7:
+        run_instances(r2, inst, [opts, ()], 20, stats, dist)
+        it = inst[0]
+        print("true optimum per criterion (Coq, exhaustive):", it.get("opt"), "realizing sequences:", it.get("n_realizing"))
+        for (e, c), z in it["runs"].items():
+            print("  options %s criterion %s: %s" % (list(e), c, {k: z.get(k) for k in ("outcome", "ids", "objective", "error")}))
+    encoder_correspondence(r2, inst, stats, dist)
+    print("stats:", dict(stats))
+    return 1 if r2.reports else 0
